@@ -2777,6 +2777,11 @@ def c08(tier):
         rep.notes["apalache_obligations"] = {"obligations": 1, "discharged": 1, "spec": "BigProof.tla (Laws: limb split, add, sub, <, <= agree with integer arithmetic for all naturals, base 2^24)"}
     # the reader side at model level: every ZIP64 layout an independent producer may emit is decoded exactly (Producer.tla)
     mc_producer(rep, wd, tier, mutants=("cs_first", "either_both", "always_all", "first_record_only"), one_entry_only=True)
+    # ... and every realisable one-entry archive of that model that carries ZIP64 records is built by the independent builder and read
+    # by the real reader (forced subsets x record positions x local record x data-descriptor styles), judged by Trace_Open
+    pz = [A for A in producer_cases(wd, "MC_Producer1.cfg", "emit-p1") if any(any(c["forced"].values()) or c["lz64"] for c in A["ents"])]
+    rep.notes["producer_zip64_cases"] = len(pz)
+    run_reader_scenarios(rep, wd, [gen_reader.from_producer_case("z%05d" % i, A) for i, A in enumerate(pz)], "producer-zip64", neg_control=False)
     # the writer model at scaled thresholds (NoWrappedSizes, LayoutWellFormed around Thr16/ThrN/Thr32)
     mc_writer(rep, wd, "quick")
     sd = vlib.seed()
